@@ -1,0 +1,22 @@
+//go:build verif
+
+// Contracts for package client, read by /verif's goatvc (comment-only; no executable code).
+package client
+
+//@ func client.errorIfDone
+//@   nopanic[C13.nopanic]
+//@   requires rpc != nil
+//@   ensures[C02.not_done_without_trailer C13.wellformed] rpc.Trailer == nil ==> !result.0 && result.1 == nil
+//@   ensures[C02.done_with_trailer] rpc.Trailer != nil ==> result.0 && result.1 != nil
+//@   ensures[C02.eof_iff_ok C03.ok_is_eof] rpc.Trailer != nil && rpc.Reset_ == nil && (rpc.Status == nil || rpc.Status.Code == 0) ==> result.1 == io.EOF
+//@   ensures[C03.error_status] rpc.Trailer != nil && rpc.Status != nil && rpc.Status.Code != 0 ==>
+//@     | result.1 != io.EOF && isStatus(result.1) && stCode(result.1) == rpc.Status.Code && stMsg(result.1) == rpc.Status.Message && stDetails(result.1) == rpc.Status.Details
+//@   ensures[C03.reset_not_eof C02.reset_not_eof] rpc.Trailer != nil && rpc.Reset_ != nil ==> result.1 != nil && result.1 != io.EOF
+
+//@ func client.toStatusError
+//@   nopanic[C13.nopanic]
+//@   ensures[C03.ctx_errors C07.ctx_status] err != nil && errIs(err, context.Canceled) && !errIs(err, context.DeadlineExceeded) ==> isStatus(result) && stCode(result) == 1
+//@   ensures[C03.ctx_errors C07.ctx_status] err != nil && errIs(err, context.DeadlineExceeded) ==> isStatus(result) && stCode(result) == 4
+//@   ensures[C03.status_kept] err != nil && isStatus(err) && stCode(err) != 0 && !errIs(err, context.Canceled) && !errIs(err, context.DeadlineExceeded) ==>
+//@     | isStatus(result) && stCode(result) == stCode(err) && stMsg(result) == stMsg(err) && stDetails(result) == stDetails(err)
+//@   ensures[C03.plain_error_unknown C09.never_eof] err != nil && !isStatus(err) ==> result != nil && result != io.EOF && isStatus(result)
